@@ -477,6 +477,7 @@ def oracle(case, obs):
     entered_last = None      # the state most recently entered by next_state() and not yet called
     offc = False             # the history has left the usage contract K
     mstopped = True          # done() ran and no regular / must_finish state has run since (the oracle's own view)
+    dflt_fresh = True        # the default state, when it runs next, is newly entered (something else was entered / done() ran since)
     maxclk = -1
     nonneg_durs = all((v["dur"] or 0) >= 0 for v in st.values())
     for opi, (op, (evs, is_exec, cur)) in enumerate(zip(case["hist"], obs)):
@@ -505,6 +506,11 @@ def oracle(case, obs):
         is_iter = kind == "execute" or (kind == "aiter" and latch)
         if kind == "aenable":
             latch = True
+        if kind == "engage" and not has_state and not errs and not any(e[0] == "enter" for e in evs):
+            msg = ("op %d %r: engage() on a machine that has no current state did not select a state (no next_state()): the request is "
+                   "lost and no state function can run in the coming iteration" % (opi, op))
+            out.append(("C01", msg))
+            out.append(("C04", msg))
         if kind == "engage" or (kind == "aiter" and latch):
             if (not prev_exec or mstopped) and not requested:
                 fresh = ("any", op[1] if kind == "engage" and op[1] is not None else first)
@@ -535,17 +541,25 @@ def oracle(case, obs):
                 last.pop(e[1], None)
                 has_state = True
                 entered_last = e[1]
+                dflt_fresh = True
             elif e[0] == "done":
                 has_state = False
                 seen_done = True
                 entered_last = None
                 mstopped = True
+                dflt_fresh = True
             elif e[0] == "call":
                 s, tm, stm, init, eng = e[1], e[2], e[3], e[4], e[5]
                 if (not offc and entered_last is not None and s != default and s != entered_last
                         and (requested or must(entered_last)) and is_iter):
                     out.append(("C02", "op %d %r: s%d was entered and never ran: s%d ran instead (a state that has just been "
                                        "entered is always run once before it can expire)" % (opi, op, entered_last, s)))
+                if s == default:
+                    if init is not None and isinstance(init, bool) and init != dflt_fresh:
+                        out.append(("C03", "op %d %r: initial_call of the default state s%d is %r, but %s" % (
+                            opi, op, s, init, "another state was selected or done() ran since its last call: it is entered anew by the "
+                            "fall-back" if dflt_fresh else "nothing else was selected and done() did not run since its last call")))
+                    dflt_fresh = False
                 if s != default:
                     entered_last = None
                     mstopped = False
